@@ -13,7 +13,7 @@ func Run(c *vrun.Ctx) error {
 	all := []struct {
 		name string
 		f    func(*vrun.Ctx) error
-	}{{"pmt", runPmt}, {"gcs", runGcs}}
+	}{{"pmt", runPmt}, {"gcs", runGcs}, {"bloom", runBloom}, {"basic", runBasic}}
 	var subs []func(*vrun.Ctx) error
 	// development aid: VERIF_C20_PARTS=pmt,gcs runs only those parts (the
 	// evidence then says so and does not claim the whole property)
